@@ -99,6 +99,9 @@ def run_sim(case):
             arr = np.array([[complex(*v) for v in row] for row in case["values"]])
     else:
         arr = np.array([[float(v) for v in row] for row in case["values"]])
+        if case.get("layout") in ("T", "list") and len(ins) % 2 == 0:
+            # probabilities computed as amp * conj(amp) arrive with a complex dtype and zero imaginary part
+            arr = arr.astype(complex)
     rtype = "probability_amplitude" if case["amp"] else "probability"
     layout = case.get("layout", "C")
     if layout == "F":
